@@ -162,10 +162,10 @@ mod imp {
     pub struct Imp { pub text: String, pub value: i64, pub host: Option<(String, i64)> }
     pub struct ModDef { pub name: String, pub fns: Vec<(String, i64)>, pub consts: Vec<(String, i64)> }
     pub struct Gen { pub rng: Rng, pub n: u64, pub o: Oracle, pub boomed_host: bool,
-                     pub modules: Vec<ModDef>, pub forms_left: Vec<u8>, pub pending: Vec<Imp>, pub usable: Vec<Imp> }
+                     pub modules: Vec<ModDef>, pub forms_left: Vec<u8>, pub pending: Vec<Imp>, pub usable: Vec<Imp>, pub rejected_probe: Vec<Imp> }
     impl Gen {
         pub fn new(seed: u64) -> Self {
-            let mut g = Gen { rng: Rng::new(seed), n: 0, o: Oracle::new(), boomed_host: false, modules: vec![], forms_left: vec![], pending: vec![], usable: vec![] };
+            let mut g = Gen { rng: Rng::new(seed), n: 0, o: Oracle::new(), boomed_host: false, modules: vec![], forms_left: vec![], pending: vec![], usable: vec![], rejected_probe: vec![] };
             // two small user modules (written next to the session's working directory by run_case)
             for m in ["ua", "ub"] {
                 let k1 = g.rng.range_i64(2, 9); let k2 = g.rng.range_i64(2, 9); let c = g.rng.range_i64(10, 99);
@@ -184,8 +184,8 @@ mod imp {
             s
         }
         /// an import statement as its own input; every spelling it makes available must be used by a LATER input
-        fn import_step(&mut self) -> Option<Step> {
-            let form = self.forms_left.pop()?;
+        /// the text of an import statement of the given form and the spellings it makes available
+        fn make_import(&mut self, form: u8) -> (String, Vec<Imp>) {
             let mi = self.rng.below(self.modules.len() as u64) as usize;
             let (mname, fns, consts) = { let m = &self.modules[mi]; (m.name.clone(), m.fns.clone(), m.consts.clone()) };
             let arg = self.rng.range_i64(1, 9);
@@ -210,6 +210,12 @@ mod imp {
                 _ => { new.push(Imp { text: "floor(7.5)".into(), value: 7, host: None }); new.push(Imp { text: "abs(-4)".into(), value: 4, host: None });
                        "needs floor, abs from std.math".to_string() }
             };
+            (text, new)
+        }
+        /// an import statement as its own input; every spelling it makes available must be used by a LATER input
+        fn import_step(&mut self) -> Option<Step> {
+            let form = self.forms_left.pop()?;
+            let (text, new) = self.make_import(form);
             for i in &new { if let Some((h, k)) = &i.host { self.o.imported.insert(h.clone(), *k); } }
             self.pending.extend(new.iter().cloned());
             self.usable.extend(new);
@@ -311,6 +317,10 @@ mod imp {
                                                  Stmt::Let { name: "g0".into(), mutable: true, val: Val::Int(7) },
                                                  Stmt::Def { name: "f0".into(), def: FnDef { tag: "T0".into(), kind: FnKind::AddK(1) } }], expect: Expect::Ok };
             }
+            // the import of an input that was rejected at compile time must not have taken effect
+            if let Some(p) = self.rejected_probe.pop() {
+                return Step::Input { stmts: vec![Stmt::Raw { text: format!("println({})", p.text) }], expect: Expect::CompileError };
+            }
             if flush { return self.use_step(); }
             if !self.forms_left.is_empty() && self.rng.chance(1, 9) { if let Some(s) = self.import_step() { return s; } }
             if !self.usable.is_empty() && (self.rng.chance(1, 8) || (!self.pending.is_empty() && self.rng.chance(1, 3))) { return self.use_step(); }
@@ -349,6 +359,14 @@ mod imp {
                 };
                 let pos = self.rng.below(stmts.len() as u64 + 1) as usize;
                 stmts.insert(pos, bad);
+                // sometimes the rejected input also imports (under a fresh alias): "changes nothing" includes the import.
+                // (not with a syntax error: the parser rejects the input before anything is loaded -- also fine)
+                if self.rng.chance(1, 3) {
+                    let form = if self.rng.chance(1, 2) { 1 } else { 4 };
+                    let (text, new) = self.make_import(form);
+                    stmts.insert(0, Stmt::Needs { text });
+                    self.rejected_probe.push(new[0].clone());
+                }
                 return Step::Input { stmts, expect: Expect::CompileError };
             }
             if r < 40 {
